@@ -325,6 +325,16 @@ def run(ctx: core.Ctx) -> int:
     ctx.oblige("GATE-SITES", f"{F}:ExtendedKalmanFilter", f"{len(others)} direct eigen/symmetry tests in the filter methods", not others, file=F,
                func="ExtendedKalmanFilter", construct="extra gates:" + ";".join(o[0] for o in others),
                msg=f"the filter tests covariances outside assert_valid_covariance: {others}")
+    # ... and the managed runtime has no validity gate of its own (a second gate with its own, e.g. absolute, tolerance refuses covariances the
+    # filter itself produced)
+    RTF = "py/formak/runtime.py"
+    rt = ctx.parse(RTF)
+    rothers = [(getattr(f_, "name", "?"), ast.unparse(c)[:60], c.lineno) for f_ in ast.walk(rt) if isinstance(f_, ast.FunctionDef) for c in ast.walk(f_)
+               if isinstance(c, ast.Call) and any(k in ast.unparse(c.func) for k in ("linalg.eig", "linalg.cholesky", "allclose", "eigvals", "isclose", "array_equal"))]
+    ctx.oblige("GATE-SITES", f"{RTF}:ManagedFilter", f"{len(rothers)} eigen/symmetry tests in the managed runtime", not rothers, file=RTF,
+               func="ManagedFilter", construct="extra gates (runtime):" + ";".join(o[0] for o in rothers),
+               msg=f"the managed runtime tests covariances with its own gate: {rothers} -- a valid (e.g. rank-deficient) covariance, even one the filter "
+                   f"produced itself, is refused", line=rothers[0][2] if rothers else None)
     # ---- C++ side: the same structural clauses for the generated filter
     from .. import cppforms, genlayout, witness
     ctx.rule("Q-INIT", "every entry of the generated noise matrices is assigned (the declared matrices are uninitialised): Q, M are the configured, "
